@@ -23,7 +23,8 @@
 
   Shared mutable objects of the Go code made explicit:
   * `app.Instructions[i]` is a pointer; `Forward` mutates the instruction itself, so the forward slot belongs to the
-    STATIC instruction (all its dynamic instances): `State.fwds`, indexed by `pc/4`.
+    STATIC instruction (all its dynamic instances): `State.fwds`, indexed by `pc/4`; `instrOf` puts the slot into
+    the instruction with the generated `Gen.Instr.setForward` before `Run` / `MemoryRead` are called.
   * the execute bus holds POINTERS to the control unit's runners; `previousRunner.Forwarder = ch` mutates the runner
     while it sits in the execute bus: `setForwarder` on the bus entry with that runner's identity (`uid`, ghost).
   * channels (`make(chan int32, 1)`, one send, one non-blocking receive): `State.chans`, ids from `State.nextChan`.
@@ -47,55 +48,6 @@ open Model.Seq (App Halt)
 open Model.Mvp60 (cfg busSize btbSize FetchUnit DecodeUnit ExecCtx EuCo WuCo WriteUnit BranchUnit FuCo L3Res Event
   incRegs decRegs addPendingRegisters deletePendingRegisters pendingPos getFromL3 pushLineToL3 pastEnd instrAt
   btbGet btbAdd buShouldFlush)
-
-/-- `runner.Forward(forward)`: sets the instruction's forward slot (six instructions have none: empty methods) -/
-def setForward (i : Gen.Instr) (f : Gen.Forward) : Gen.Instr :=
-  match i with
-  | .add_ op => .add_ { op with forward := f }
-  | .addi_ op => .addi_ { op with forward := f }
-  | .and_ op => .and_ { op with forward := f }
-  | .andi_ op => .andi_ { op with forward := f }
-  | .auipc_ op => .auipc_ op
-  | .beq_ op => .beq_ { op with forward := f }
-  | .beqz_ op => .beqz_ { op with forward := f }
-  | .bge_ op => .bge_ { op with forward := f }
-  | .bgeu_ op => .bgeu_ { op with forward := f }
-  | .ble_ op => .ble_ { op with forward := f }
-  | .blt_ op => .blt_ { op with forward := f }
-  | .bltu_ op => .bltu_ { op with forward := f }
-  | .bne_ op => .bne_ { op with forward := f }
-  | .bnez_ op => .bnez_ { op with forward := f }
-  | .div_ op => .div_ { op with forward := f }
-  | .j_ op => .j_ op
-  | .jal_ op => .jal_ { op with forward := f }
-  | .jalr_ op => .jalr_ { op with forward := f }
-  | .lui_ op => .lui_ op
-  | .lb_ op => .lb_ { op with forward := f }
-  | .lh_ op => .lh_ { op with forward := f }
-  | .li_ op => .li_ op
-  | .lw_ op => .lw_ { op with forward := f }
-  | .nop_ op => .nop_ op
-  | .mul_ op => .mul_ { op with forward := f }
-  | .mv_ op => .mv_ { op with forward := f }
-  | .or_ op => .or_ { op with forward := f }
-  | .ori_ op => .ori_ { op with forward := f }
-  | .rem_ op => .rem_ { op with forward := f }
-  | .ret_ op => .ret_ op
-  | .sb_ op => .sb_ { op with forward := f }
-  | .sh_ op => .sh_ { op with forward := f }
-  | .sll_ op => .sll_ { op with forward := f }
-  | .slli_ op => .slli_ { op with forward := f }
-  | .slt_ op => .slt_ { op with forward := f }
-  | .sltu_ op => .sltu_ { op with forward := f }
-  | .slti_ op => .slti_ { op with forward := f }
-  | .sra_ op => .sra_ { op with forward := f }
-  | .srai_ op => .srai_ { op with forward := f }
-  | .srl_ op => .srl_ { op with forward := f }
-  | .srli_ op => .srli_ { op with forward := f }
-  | .sub_ op => .sub_ { op with forward := f }
-  | .sw_ op => .sw_ { op with forward := f }
-  | .xor_ op => .xor_ { op with forward := f }
-  | .xori_ op => .xori_ { op with forward := f }
 
 /-! ## unit states -/
 
@@ -176,7 +128,7 @@ def fwdSet (l : List (Nat × Gen.Forward)) (idx : Nat) (f : Gen.Forward) : List 
   (idx, f) :: l.filter (fun e => e.1 != idx)
 
 /-- the instruction of a runner as `Run` / `MemoryRead` see it: with the current forward slot -/
-def instrOf (s : State) (r : Runner) : Gen.Instr := setForward r.instr (fwdGet s.fwds (instrIdx r.pc))
+def instrOf (s : State) (r : Runner) : Gen.Instr := r.instr.setForward (fwdGet s.fwds (instrIdx r.pc))
 
 def chanGet (l : List (Nat × Word)) (ch : Nat) : Option Word := (l.find? (fun e => e.1 == ch)).map (·.2)
 
@@ -414,46 +366,54 @@ def euRun (app : App) (s : State) (i : Nat) (eu : ExecUnit) (r : Runner) (cyc : 
           let s := { s with chans := s.chans ++ [(ch, e.RegisterValue)] }
           if t.IsBranch then throw (.panic "shouldn't be a branch") else pure (s, .none)
 
+/-- `prepareRun`, first part: `if u.runner.Receiver != nil { select { case v := <-u.runner.Receiver: … default: return } }`
+— `none` = nothing on the channel yet (poll again next cycle); otherwise the value goes into the forward slot of the
+(static) instruction for the register the control unit matched, and the runner's receiver is cleared -/
+def euReceive (s : State) (eu : ExecUnit) (r : Runner) : Option (State × ExecUnit × Runner) :=
+  match r.receiver with
+  | none => some (s, eu, r)
+  | some ch =>
+    match chanGet s.chans ch with
+    | none => none
+    | some v =>
+      let r' := { r with receiver := none }
+      some ({ s with chans := s.chans.filter (fun e => e.1 != ch),
+                     fwds := fwdSet s.fwds (instrIdx r.pc) { Register := r.fwdReg, Value := v } },
+            { eu with runner := some r' }, r')
+
+/-- `prepareRun`, second part: `bu.assert`, the memory read, `run` -/
+def euAfterReceive (app : App) (s : State) (i : Nat) (eu : ExecUnit) (r : Runner) (cyc : Int) : M (State × EuOut) := do
+  let s := buAssert s r
+  let addrs := (instrOf s r).memoryRead s.ctx 0#32
+  if !addrs.isEmpty then do
+    let (res, mmu, pend) ← getFromL3 s.mmu s.pendings addrs
+    let s := { s with mmu := mmu, pendings := pend }
+    match res with
+    | .pending => pure (setEu s i eu, .none)
+    | .hit m => pure (setEu s i { eu with memory := m, co := .l3wait (Gen.Latency.L3Access - 1) }, .none)
+    | .miss => pure (setEu s i { eu with co := .memwait (Gen.Latency.MemoryAccess - 1) addrs }, .none)
+  else euRun app s i eu r cyc
+
 /-- `executeUnit.prepareRun(r)` of unit `i` -/
 def euPrepare (app : App) (s : State) (i : Nat) (eu : ExecUnit) (r : Runner) (cyc : Int) : M (State × EuOut) :=
   if !s.writeBus.canAdd then pure (setEu s i eu, .none)
   else
-    -- the forwarded operand
-    let recv : Option (State × ExecUnit × Runner) :=
-      match r.receiver with
-      | none => some (s, eu, r)
-      | some ch =>
-        match chanGet s.chans ch with
-        | none => none
-        | some v =>
-          let r' := { r with receiver := none }
-          some ({ s with chans := s.chans.filter (fun e => e.1 != ch),
-                         fwds := fwdSet s.fwds (instrIdx r.pc) { Register := r.fwdReg, Value := v } },
-                { eu with runner := some r' }, r')
-    match recv with
+    match euReceive s eu r with
     | none => pure (setEu s i eu, .none)
-    | some (s, eu, r) => do
-      let s := buAssert s r
-      let addrs := (instrOf s r).memoryRead s.ctx 0#32
-      if !addrs.isEmpty then do
-        let (res, mmu, pend) ← getFromL3 s.mmu s.pendings addrs
-        let s := { s with mmu := mmu, pendings := pend }
-        match res with
-        | .pending => pure (setEu s i eu, .none)
-        | .hit m => pure (setEu s i { eu with memory := m, co := .l3wait (Gen.Latency.L3Access - 1) }, .none)
-        | .miss => pure (setEu s i { eu with co := .memwait (Gen.Latency.MemoryAccess - 1) addrs }, .none)
-      else euRun app s i eu r cyc
+    | some (s, eu, r) => euAfterReceive app s i eu r cyc
+
+/-- the `Pre` hook of the unit's coroutine: drop (`eu.flush()`) a unit whose runner is younger than `eu.sequenceID` -/
+def euPre (eu : ExecUnit) : Bool :=
+  match eu.runner with
+  | none => false
+  | some r => eu.sequenceID != 0#32 && eu.sequenceID.slt r.seq
 
 /-- `executeUnit.Cycle(euReq{cyc, ctx, app})` for unit `i`: the `Pre` hook, then the current closure -/
 def euCycle (app : App) (s : State) (i : Nat) (cyc : Int) : M (State × EuOut) :=
   match s.eus[i]? with
   | none => throw (.panic "execute unit index")
   | some eu =>
-    -- `Pre`: drop a unit whose runner is younger than `eu.sequenceID`
-    let pre := match eu.runner with
-      | none => false
-      | some r => eu.sequenceID != 0#32 && eu.sequenceID.slt r.seq
-    if pre then pure (setEu s i { eu with co := .none, sequenceID := 0 }, .none)
+    if euPre eu then pure (setEu s i { eu with co := .none, sequenceID := 0 }, .none)
     else
     match eu.co with
     | .none =>
